@@ -29,6 +29,73 @@ pub(crate) fn manual_background() -> bool {
 	MANUAL_BACKGROUND.load(Ordering::Relaxed)
 }
 
+// ===== H5 / H6: yield points and commit-pipeline events =====
+
+/// What the commit pipeline reports (in the exact order of its critical
+/// sections when a scheduler serialises the actors).
+#[derive(Debug, Clone, PartialEq, Eq)]
+pub enum VerifEvent {
+	/// `oracle.check` under `write_mutex`: 0 = ok, 1 = write conflict, 2 = retry
+	Check {
+		start_seq: u64,
+		outcome: u8,
+	},
+	/// sequence range reserved under `write_mutex`
+	Alloc {
+		seq: u64,
+		count: u64,
+		oldest_active: u64,
+	},
+	/// result of the WAL append (+ sync) under `write_mutex`
+	Logged {
+		seq: u64,
+		ok: bool,
+	},
+	/// result of the memtable apply (outside the lock)
+	Applied {
+		seq: u64,
+		ok: bool,
+	},
+	/// `visible_seq_num` advanced (or was found already advanced) to cover the batch starting at `seq`
+	Published {
+		seq: u64,
+		visible: u64,
+	},
+}
+
+/// Installed per thread by a harness that wants to own the interleaving.
+pub trait VerifActor: Send + Sync {
+	/// Called at a named yield point (never while a lock is held).
+	fn yield_point(&self, site: &'static str);
+	fn event(&self, ev: VerifEvent);
+}
+
+thread_local! {
+	static ACTOR: std::cell::RefCell<Option<Arc<dyn VerifActor>>> = const { std::cell::RefCell::new(None) };
+}
+
+/// Installs (or removes) the calling thread's actor handle. Threads without
+/// one pass through every yield point untouched.
+pub fn set_actor(a: Option<Arc<dyn VerifActor>>) {
+	ACTOR.with(|c| *c.borrow_mut() = a);
+}
+
+#[inline]
+pub(crate) fn yp(site: &'static str) {
+	let a = ACTOR.with(|c| c.borrow().clone());
+	if let Some(a) = a {
+		a.yield_point(site);
+	}
+}
+
+#[inline]
+pub(crate) fn ev(e: VerifEvent) {
+	let a = ACTOR.with(|c| c.borrow().clone());
+	if let Some(a) = a {
+		a.event(e);
+	}
+}
+
 // ===== H9: deterministic skiplist heights =====
 
 thread_local! {
